@@ -100,6 +100,9 @@ func (a *AuthIp) watchYml() error {
 					switch {
 					case ev.Op&fsnotify.Write == fsnotify.Write:
 						fallthrough
+					case ev.Op&fsnotify.Create == fsnotify.Create:
+						// a rewrite by rename (mv tmp file) is reported as Create of the watched name
+						fallthrough
 					case ev.Op&fsnotify.Rename == fsnotify.Rename:
 						if err := a.parseAuthIp(); err != nil {
 							logging.Errorf("parser auth ip err: %s", err)
